@@ -63,6 +63,8 @@ added = {
  "C37-r4": "hand-built CMS signer infos with every prefix / extension / alteration of the message-digest attribute",
  "C40-r4": "requester kinds carrying an ISD-AS (SCION peers in local / foreign / twin ASes, other net.Addr types)",
  "C42-r4": "IPv4 flag x fragment-offset grid",
+ "C02-r5": "every simulated router recycles one packet object for all packets it processes (pool-style reset), so state left behind by one packet meets the next",
+ "C14-r5": "sibling links sharing the internal socket (UDPCanReuseLocal false): receive loop demultiplexes by source address",
  "C48-r4": "rings pre-filled and pre-drained to every fill level / index position before the concurrent phase",
 }
 rows = []
